@@ -19,3 +19,20 @@ Definition cli_ppb_wrapping (arg : option Z) : cli_result :=
   | None => CliOk 1000
   | Some r => if in_u32 r then CliOk (wrap_u32 (r * 1000)) else CliRejected
   end.
+
+(* refid_to_u32 (clock-bound-d/src/lib.rs), the value parser of --phc-ref-id: a string of at most
+   four ASCII bytes is read as a big-endian number, the last byte in the low position (a shorter
+   string is therefore right-aligned); anything else is refused.  Bytes are numbers 0..255. *)
+From Coq Require Import List.
+Import ListNotations.
+
+Definition is_ascii (b : Z) : bool := (0 <=? b) && (b <? 128).
+
+Fixpoint be_value (bs : list Z) (acc : Z) : Z :=
+  match bs with
+  | [] => acc
+  | b :: t => be_value t (acc * 256 + b)
+  end.
+
+Definition refid_of (bs : list Z) : option Z :=
+  if (Nat.leb (length bs) 4) && forallb is_ascii bs then Some (be_value bs 0) else None.
